@@ -6,6 +6,7 @@ from engine.sqfprog import vm_value
 
 ID = "C07"
 LEVEL = "exploration"
+HANG_IS_VIOLATION = True     # every generated case terminates under the model: no reply (twice, then 3x confirmation) is a violation
 ENGINE = "E-hyp"
 TECHNIQUE = "property-based testing: algebraic laws over variant pairs/triples (isEqualTo, ==, std::hash<value>) and model-based histories on hashmaps against a Python dictionary keyed by isEqualTo-classes"
 RULE = ("laws: pairs/triples built as variants of one base value (copy, +-0, case flip, one element changed, nil inserted, code spelled differently, "
